@@ -538,6 +538,10 @@ def run_c02(prop, tier):
                 got = meta.get("verif", {}).get("a")
                 if (sets and got != sets[-1]) or (not sets and got is not None):
                     msg = "attribute verif.a is %r in the final metadata, last set to %r" % (got, sets[-1] if sets else None)
+                cpus = sorted(set((c.get("index"), c.get("phyid")) for c in meta.get("ovni", {}).get("loom_cpus", [])))   # (adding a CPU twice is not judged)
+                want = [(0, 0)] + ([(i, i + 2) for i in range(1, 301)] if "ac" in prog else [])
+                if msg is None and cpus != want:
+                    msg = "ovni.loom_cpus lists %d CPUs %r..., the program added %d" % (len(cpus), [c for c in cpus if c not in want][:3] or [c for c in want if c not in cpus][:3], len(want))
             emsg = emu(cd) if msg is None else None
             return msg, emsg
         for prog, (msg, emsg) in zip(mjobs, pmap(one_meta, mjobs)):
